@@ -6,6 +6,13 @@ use alloc::string::String;
 use alloc::vec::Vec;
 use crate::shared::{TzifFixed, TzifTransitionsOwned};
 
+/// error construction formats a message through alloc::fmt (hundreds of thousands of SAT clauses and loops over the
+/// message text); the message is irrelevant to the property, so it is replaced by a constant
+fn stub_from_args<'a>(_m: core::fmt::Arguments<'a>) -> Error {
+    // `Error { message: Box<str> }` has one private field; built here without going through the formatter
+    unsafe { core::mem::transmute::<alloc::boxed::Box<str>, Error>(String::new().into_boxed_str()) }
+}
+
 fn wf_indices(t: &TzifOwned) -> bool {
     let n = t.transitions.timestamps.len();
     if n == 0 || t.transitions.infos.len() != n || t.transitions.civil_starts.len() != n || t.transitions.civil_ends.len() != n {
@@ -19,31 +26,6 @@ fn wf_indices(t: &TzifOwned) -> bool {
         i += 1;
     }
     true
-}
-
-//@harness c17_tzif_parse_v1_1x1
-//@target shared::TzifOwned::parse (src/shared/tzif.rs): V1 file with 1 transition, 1 local time type, 4 designation bytes
-//@prop C17 C03 C05
-//@tier thorough
-//@features alloc
-//@timeout 2400
-//@bounded header counts fixed to timecnt=1,typecnt=1,charcnt=4 (59-byte V1 file); all 15 data bytes symbolic
-//@doc parse returns Ok or Err without panicking; an Ok table has >= 1 transition (the dummy), equal-length columns and every transition type index < number of types
-#[kani::proof]
-#[kani::unwind(64)]
-fn c17_tzif_parse_v1_1x1() {
-    let mut bytes = [0u8; 59];
-    bytes[0] = b'T'; bytes[1] = b'Z'; bytes[2] = b'i'; bytes[3] = b'f';
-    bytes[4] = 0; // version 1
-    // isutcnt, isstdcnt, leapcnt = 0; timecnt = 1; typecnt = 1; charcnt = 4 (big endian u32 at 20,24,28,32,36,40)
-    bytes[35] = 1; bytes[39] = 1; bytes[43] = 4;
-    let data: [u8; 15] = kani::any();
-    let mut i = 0;
-    while i < 15 { bytes[44 + i] = data[i]; i += 1; }
-    match TzifOwned::parse(None, &bytes) {
-        Ok(t) => { assert!(wf_indices(&t)); }
-        Err(_) => {}
-    }
 }
 
 fn mk(types: Vec<TzifLocalTimeType>, designations: &str) -> TzifOwned {
@@ -124,5 +106,109 @@ fn c18_find_or_create_designation() {
             if which == 2 { assert!(a == 6 && b == 8 && tz.fixed.designations.len() == 9); }
         }
         None => assert!(false),
+    }
+}
+
+//@harness c17_tzif_header
+//@target shared::tzif::Header::{parse,data_block_len,transition_times_len,transition_types_len,local_time_types_len,time_zone_designations_len,leap_second_len,standard_wall_len,ut_local_len,is_32bit} (src/shared/tzif.rs)
+//@prop C17 C05
+//@tier quick
+//@features alloc
+//@timeout 600
+//@doc for all 44 header bytes and both time sizes: parse returns Ok or Err without panicking; Ok => the six counts are the big-endian u32 fields, typecnt >= 1, charcnt >= 1, isut/isstd counts are 0 or typecnt, no bytes left; every *_len() returns Ok(exact product) or Err on usize overflow, never panics
+#[kani::proof]
+#[kani::stub(crate::shared::util::error::Error::from_args, stub_from_args)]
+fn c17_tzif_header() {
+    let bytes: [u8; 44] = kani::any();
+    let time_size: usize = if kani::any() { 4 } else { 8 };
+    match Header::parse(time_size, &bytes) {
+        Err(_) => {}
+        Ok((h, rest)) => {
+            assert!(rest.is_empty());
+            let f = |i: usize| u32::from_be_bytes([bytes[i], bytes[i + 1], bytes[i + 2], bytes[i + 3]]) as usize;
+            assert!(bytes[0] == b'T' && bytes[1] == b'Z' && bytes[2] == b'i' && bytes[3] == b'f');
+            assert!(h.version == bytes[4] && h.time_size == time_size);
+            assert!(h.tzh_ttisutcnt == f(20) && h.tzh_ttisstdcnt == f(24) && h.tzh_leapcnt == f(28));
+            assert!(h.tzh_timecnt == f(32) && h.tzh_typecnt == f(36) && h.tzh_charcnt == f(40));
+            assert!(h.tzh_typecnt >= 1 && h.tzh_charcnt >= 1);
+            assert!(h.tzh_ttisutcnt == 0 || h.tzh_ttisutcnt == h.tzh_typecnt);
+            assert!(h.tzh_ttisstdcnt == 0 || h.tzh_ttisstdcnt == h.tzh_typecnt);
+            assert!(h.is_32bit() == (time_size == 4));
+            assert!(h.transition_times_len().ok() == h.tzh_timecnt.checked_mul(time_size));
+            assert!(h.transition_types_len().ok() == Some(h.tzh_timecnt));
+            assert!(h.local_time_types_len().ok() == h.tzh_typecnt.checked_mul(6));
+            assert!(h.time_zone_designations_len().ok() == Some(h.tzh_charcnt));
+            assert!(h.leap_second_len().ok() == h.tzh_leapcnt.checked_mul(time_size + 4));
+            assert!(h.standard_wall_len().ok() == Some(h.tzh_ttisstdcnt) && h.ut_local_len().ok() == Some(h.tzh_ttisutcnt));
+            let _ = h.data_block_len();
+        }
+    }
+}
+
+fn mk_header(time_size: usize, timecnt: usize, typecnt: usize) -> Header {
+    Header { time_size, version: b'2', tzh_ttisutcnt: 0, tzh_ttisstdcnt: 0, tzh_leapcnt: 0, tzh_timecnt: timecnt, tzh_typecnt: typecnt, tzh_charcnt: 4 }
+}
+
+//@harness c17_parse_transition_types
+//@target shared::TzifOwned::parse_transition_types (src/shared/tzif.rs)
+//@prop C17 C05 C03
+//@tier quick
+//@features alloc
+//@timeout 600
+//@bounded 2 transitions (plus the dummy), 1..=3 local time types, input of 0..=3 symbolic bytes
+//@doc Ok => every transition's type index is < tzh_typecnt (so later lookups `types[type_index]` cannot go out of bounds) and the unread rest is what follows the block; a short block is Err; never panics
+#[kani::proof]
+#[kani::stub(crate::shared::util::error::Error::from_args, stub_from_args)]
+#[kani::unwind(5)]
+fn c17_parse_transition_types() {
+    let typecnt: usize = kani::any();
+    kani::assume(1 <= typecnt && typecnt <= 3);
+    let header = mk_header(8, 2, typecnt);
+    let mut tz = mk(Vec::new(), "UTC\0");
+    tz.transitions.add_with_type_index(-377705023201, 0);
+    tz.transitions.add(0);
+    tz.transitions.add(1);
+    let data: [u8; 3] = kani::any();
+    let len: usize = kani::any();
+    kani::assume(len <= 3);
+    let r = tz.parse_transition_types(&header, &data[..len]);
+    match r {
+        Ok(rest) => {
+            assert!(len >= 2 && rest.len() == len - 2);
+            assert!(usize::from(tz.transitions.infos[1].type_index) < typecnt);
+            assert!(usize::from(tz.transitions.infos[2].type_index) < typecnt);
+            assert!(tz.transitions.infos[1].type_index == data[0] && tz.transitions.infos[2].type_index == data[1]);
+        }
+        Err(_) => { assert!(len < 2 || usize::from(data[0]) >= typecnt || usize::from(data[1]) >= typecnt); }
+    }
+}
+
+//@harness c17_parse_local_time_types
+//@target shared::TzifOwned::parse_local_time_types (src/shared/tzif.rs)
+//@prop C17 C05 C03
+//@tier quick
+//@features alloc
+//@timeout 600
+//@bounded 2 local time types (12 symbolic bytes), input length 0..=13
+//@doc Ok => exactly tzh_typecnt types were appended, each offset within -93599..=93599 (the Offset range) and the DST flag is byte 4 == 1; out-of-range offsets and short blocks are Err; never panics
+#[kani::proof]
+#[kani::stub(crate::shared::util::error::Error::from_args, stub_from_args)]
+#[kani::unwind(4)]
+fn c17_parse_local_time_types() {
+    let header = mk_header(8, 0, 2);
+    let mut tz = mk(Vec::with_capacity(2), "UTC\0");
+    let data: [u8; 13] = kani::any();
+    let len: usize = kani::any();
+    kani::assume(len <= 13);
+    let r = tz.parse_local_time_types(&header, &data[..len]);
+    let off = |i: usize| i32::from_be_bytes([data[i], data[i + 1], data[i + 2], data[i + 3]]);
+    match r {
+        Ok(rest) => {
+            assert!(len >= 12 && rest.len() == len - 12 && tz.types.len() == 2);
+            assert!(tz.types[0].offset == off(0) && tz.types[1].offset == off(6));
+            assert!(-93599 <= tz.types[0].offset && tz.types[0].offset <= 93599 && -93599 <= tz.types[1].offset && tz.types[1].offset <= 93599);
+            assert!(tz.types[0].is_dst == (data[4] == 1) && tz.types[1].is_dst == (data[10] == 1));
+        }
+        Err(_) => { assert!(len < 12 || off(0) < -93599 || off(0) > 93599 || off(6) < -93599 || off(6) > 93599); }
     }
 }
